@@ -84,7 +84,7 @@ impl<F: Field> Conv<F> for Fld<F> {
     }
 }
 
-/// F_p (deg 1) or F_p[u]/(u^2 - beta) (deg 2) with p < 2^31, elements as [c0, c1]
+/// F_p (deg 1), F_p[u]/(u^2 - beta) (deg 2) or F_p[v]/(v^3 - beta) (deg 3) with p < 2^31, elements as [c0, c1, c2]
 #[derive(Clone, Debug)]
 pub struct Toy {
     pub p: u64,
@@ -104,89 +104,108 @@ impl Toy {
         }
         r
     }
-    pub fn elems(&self) -> Vec<[u64; 2]> {
+    pub fn elems(&self) -> Vec<[u64; 3]> {
         let mut v = vec![];
-        if self.deg == 1 {
-            for x in 0..self.p {
-                v.push([x, 0]);
-            }
-        } else {
-            for y in 0..self.p {
-                for x in 0..self.p {
-                    v.push([x, y]);
-                }
-            }
+        let p = self.p;
+        match self.deg {
+            1 => (0..p).for_each(|x| v.push([x, 0, 0])),
+            2 => (0..p).for_each(|y| (0..p).for_each(|x| v.push([x, y, 0]))),
+            _ => (0..p).for_each(|z| (0..p).for_each(|y| (0..p).for_each(|x| v.push([x, y, z])))),
         }
         v
+    }
+    fn pow_el(&self, a: &[u64; 3], mut e: u64) -> [u64; 3] {
+        let mut r = [1, 0, 0];
+        let mut b = *a;
+        while e > 0 {
+            if e & 1 == 1 {
+                r = Arith::mul(self, &r, &b);
+            }
+            b = Arith::mul(self, &b, &b);
+            e >>= 1;
+        }
+        r
     }
     pub fn q(&self) -> u64 {
         self.p.pow(self.deg as u32)
     }
 }
 impl Arith for Toy {
-    type El = [u64; 2];
-    fn zero(&self) -> [u64; 2] {
-        [0, 0]
+    type El = [u64; 3];
+    fn zero(&self) -> [u64; 3] {
+        [0, 0, 0]
     }
-    fn one(&self) -> [u64; 2] {
-        [1, 0]
+    fn one(&self) -> [u64; 3] {
+        [1, 0, 0]
     }
-    fn add(&self, a: &[u64; 2], b: &[u64; 2]) -> [u64; 2] {
-        [(a[0] + b[0]) % self.p, (a[1] + b[1]) % self.p]
+    fn add(&self, a: &[u64; 3], b: &[u64; 3]) -> [u64; 3] {
+        [(a[0] + b[0]) % self.p, (a[1] + b[1]) % self.p, (a[2] + b[2]) % self.p]
     }
-    fn sub(&self, a: &[u64; 2], b: &[u64; 2]) -> [u64; 2] {
-        [(a[0] + self.p - b[0]) % self.p, (a[1] + self.p - b[1]) % self.p]
+    fn sub(&self, a: &[u64; 3], b: &[u64; 3]) -> [u64; 3] {
+        [(a[0] + self.p - b[0]) % self.p, (a[1] + self.p - b[1]) % self.p, (a[2] + self.p - b[2]) % self.p]
     }
-    fn mul(&self, a: &[u64; 2], b: &[u64; 2]) -> [u64; 2] {
+    fn mul(&self, a: &[u64; 3], b: &[u64; 3]) -> [u64; 3] {
         let p = self.p;
-        if self.deg == 1 {
-            [a[0] * b[0] % p, 0]
-        } else {
-            [(a[0] * b[0] + self.beta * (a[1] * b[1] % p)) % p, (a[0] * b[1] + a[1] * b[0]) % p]
+        match self.deg {
+            1 => [a[0] * b[0] % p, 0, 0],
+            2 => [(a[0] * b[0] + self.beta * (a[1] * b[1] % p)) % p, (a[0] * b[1] + a[1] * b[0]) % p, 0],
+            _ => {
+                // schoolbook product modulo v^3 = beta
+                let mut c = [0u64; 5];
+                for i in 0..3 {
+                    for j in 0..3 {
+                        c[i + j] = (c[i + j] + a[i] * b[j]) % p;
+                    }
+                }
+                [(c[0] + self.beta * c[3]) % p, (c[1] + self.beta * c[4]) % p, c[2]]
+            },
         }
     }
-    fn neg(&self, a: &[u64; 2]) -> [u64; 2] {
-        [(self.p - a[0]) % self.p, (self.p - a[1]) % self.p]
+    fn neg(&self, a: &[u64; 3]) -> [u64; 3] {
+        [(self.p - a[0]) % self.p, (self.p - a[1]) % self.p, (self.p - a[2]) % self.p]
     }
-    fn inv(&self, a: &[u64; 2]) -> Option<[u64; 2]> {
+    fn inv(&self, a: &[u64; 3]) -> Option<[u64; 3]> {
         let p = self.p;
-        if *a == [0, 0] {
+        if *a == [0, 0, 0] {
             return None;
         }
-        if self.deg == 1 {
-            Some([self.powm(a[0], p - 2), 0])
-        } else {
-            // 1/(a0 + a1 u) = (a0 - a1 u)/(a0^2 - beta a1^2)
-            let n = (a[0] * a[0] % p + p - self.beta * (a[1] * a[1] % p) % p) % p;
-            let ni = self.powm(n, p - 2);
-            Some([a[0] * ni % p, (p - a[1]) % p * ni % p])
+        match self.deg {
+            1 => Some([self.powm(a[0], p - 2), 0, 0]),
+            2 => {
+                // 1/(a0 + a1 u) = (a0 - a1 u)/(a0^2 - beta a1^2)
+                let n = (a[0] * a[0] % p + p - self.beta * (a[1] * a[1] % p) % p) % p;
+                let ni = self.powm(n, p - 2);
+                Some([a[0] * ni % p, (p - a[1]) % p * ni % p, 0])
+            },
+            // a^(q-2) by square and multiply (q = p^3 is tiny)
+            _ => Some(self.pow_el(a, p * p * p - 2)),
         }
     }
-    fn from_u64(&self, k: u64) -> [u64; 2] {
-        [k % self.p, 0]
+    fn from_u64(&self, k: u64) -> [u64; 3] {
+        [k % self.p, 0, 0]
     }
-    fn doc_cmp(&self, a: &[u64; 2], b: &[u64; 2]) -> Option<std::cmp::Ordering> {
-        // prime fields: integer order; quadratic extensions: c1 first, then c0
-        Some((a[1], a[0]).cmp(&(b[1], b[0])))
+    fn doc_cmp(&self, a: &[u64; 3], b: &[u64; 3]) -> Option<std::cmp::Ordering> {
+        // prime fields: integer order; extensions: highest coefficient first
+        Some((a[2], a[1], a[0]).cmp(&(b[2], b[1], b[0])))
     }
-    fn show(&self, a: &[u64; 2]) -> String {
-        if self.deg == 1 {
-            format!("{}", a[0])
-        } else {
-            format!("({},{})", a[0], a[1])
+    fn show(&self, a: &[u64; 3]) -> String {
+        match self.deg {
+            1 => format!("{}", a[0]),
+            2 => format!("({},{})", a[0], a[1]),
+            _ => format!("({},{},{})", a[0], a[1], a[2]),
         }
     }
 }
 impl<F: Field> Conv<F> for Toy {
-    fn el(&self, f: &F) -> [u64; 2] {
-        let mut out = [0u64; 2];
+    fn el(&self, f: &F) -> [u64; 3] {
+        let mut out = [0u64; 3];
         for (i, c) in f.to_base_prime_field_elements().enumerate() {
             let u: UInt = c.into();
             out[i] = oracle::ToPrimitive::to_u64(&u).expect("toy coordinate");
         }
         out
     }
-    fn fld(&self, e: &[u64; 2]) -> F {
+    fn fld(&self, e: &[u64; 3]) -> F {
         F::from_base_prime_field_elems(e.iter().take(self.deg).map(|c| F::BasePrimeField::from(*c))).expect("toy element")
     }
 }
@@ -504,13 +523,44 @@ impl<M: Model, R: Conv<M::F>> Ctx<M, R> {
     }
 }
 
+/// Oracle-side description of a toy curve (from cfgs::toy_curves::{TOY_CURVES, TOY_CURVES3}).
+#[derive(Clone, Debug)]
+pub struct ToyDesc {
+    pub name: &'static str,
+    pub note: &'static str,
+    pub p: u64,
+    pub deg: usize,
+    pub beta: u64,
+    pub c1: [u64; 3],
+    pub c2: [u64; 3],
+    pub r: u64,
+    pub h: u64,
+    pub order: u64,
+    pub gx: [u64; 3],
+    pub gy: [u64; 3],
+}
+
+pub fn toy_desc(name: &str) -> &'static ToyDesc {
+    static ALL: std::sync::OnceLock<Vec<ToyDesc>> = std::sync::OnceLock::new();
+    let all = ALL.get_or_init(|| {
+        let pad = |a: [u64; 2]| [a[0], a[1], 0];
+        let mut v: Vec<ToyDesc> = cfgs::toy_curves::TOY_CURVES
+            .iter()
+            .map(|m| ToyDesc { name: m.name, note: m.note, p: m.p, deg: m.ext_degree, beta: m.beta, c1: pad(m.coeff1), c2: pad(m.coeff2), r: m.r, h: m.h, order: m.order, gx: pad(m.gen_x), gy: pad(m.gen_y) })
+            .collect();
+        v.extend(cfgs::toy_curves::TOY_CURVES3.iter().map(|m| ToyDesc { name: m.name, note: m.note, p: m.p, deg: 3, beta: m.beta, c1: m.coeff1, c2: m.coeff2, r: m.r, h: m.h, order: m.order, gx: m.gen_x, gy: m.gen_y }));
+        v
+    });
+    all.iter().find(|m| m.name == name).unwrap_or_else(|| panic!("unknown toy curve {name}"))
+}
+
 /// Enumerate a toy curve from its metadata (plain integer arithmetic).
-pub fn toy_ctx<M: Model>(meta: &cfgs::toy_curves::ToyMeta) -> Ctx<M, Toy> {
-    let ar = Toy { p: meta.p, deg: meta.ext_degree, beta: meta.beta };
+pub fn toy_ctx<M: Model>(meta: &ToyDesc) -> Ctx<M, Toy> {
+    let ar = Toy { p: meta.p, deg: meta.deg, beta: meta.beta };
     let mut ctx = Ctx::<M, Toy>::new(meta.name, ar.clone());
-    assert_eq!(ctx.cur.c1, meta.coeff1, "toy metadata and configuration disagree");
-    assert_eq!(ctx.cur.c2, meta.coeff2, "toy metadata and configuration disagree");
-    let mut pts: Vec<OP<[u64; 2]>> = vec![];
+    assert_eq!(ctx.cur.c1, meta.c1, "toy metadata and configuration disagree");
+    assert_eq!(ctx.cur.c2, meta.c2, "toy metadata and configuration disagree");
+    let mut pts: Vec<OP<[u64; 3]>> = vec![];
     if !M::TE {
         pts.push(None);
     }
@@ -526,7 +576,7 @@ pub fn toy_ctx<M: Model>(meta: &cfgs::toy_curves::ToyMeta) -> Ctx<M, Toy> {
         }
     } else {
         // y^2 = rhs: index squares
-        let mut roots: std::collections::HashMap<[u64; 2], Vec<[u64; 2]>> = Default::default();
+        let mut roots: std::collections::HashMap<[u64; 3], Vec<[u64; 3]>> = Default::default();
         for y in &els {
             roots.entry(ar.mul(y, y)).or_default().push(*y);
         }
@@ -552,7 +602,7 @@ pub fn toy_ctx<M: Model>(meta: &cfgs::toy_curves::ToyMeta) -> Ctx<M, Toy> {
         }
     }
     // subgroup generated by the configured generator
-    let g = Some((meta.gen_x, meta.gen_y));
+    let g = Some((meta.gx, meta.gy));
     assert!(ctx.cur.on_curve(&g));
     let mut sub = vec![ctx.cur.identity()];
     let mut c = g.clone();
